@@ -15,13 +15,15 @@ state graph of small configurations: every edge is executed once, not every inte
 walks on larger configurations.  `callback=None` runs are compared with the model's macro-step system `stepNC`
 (`"nc": true`); the configuration itself is re-derived by Lean from the arguments of the save (`writern.plan`,
 offsets / shards by C07's layout model, start images by the preallocation step) and compared with the one read off
-the real code, and the start image on disk is compared with the planned one.  NOTE: the controlled runs exercise the repo's *use* of the primitives
+the real code (reservations included: `_reservation_bytes` vs `reservationBytes`), and the start image on disk is
+compared with the planned one.  NOTE: the controlled runs exercise the repo's *use* of the primitives
 against the harness's own reimplementation of them; the real primitives run in the OS-scheduled runs
 and in `primitive_checks`.
 
 Oracle (independent of the model, on the real run): callback once per started tensor and never
 concurrent; same tensor object never evaluated concurrently; bytes identical to the serial save;
-materialised bytes <= budget + largest tensor; the exception reaches the caller only after all pool
+materialised bytes <= budget + largest tensor (per active `tofile` the tensor's nbytes, for an ExternalTensor the
+largest copy buffer its real `tofile` was MEASURED to hand to `write` in a dry run); the exception reaches the caller only after all pool
 threads stopped with the budget fully released and all locks free; no deadlock (some thread is
 always enabled until the call returns); the external tensors returned for the initializers (file,
 offset, length, name per input position) equal the serial save's and read back the right bytes.  The
@@ -29,8 +31,10 @@ same clauses are checked under plain OS-scheduled runs (no shim).
 """
 from __future__ import annotations
 
+import contextlib
 import os
 import shutil
+import signal
 import sys
 import tempfile
 import threading as _rt
@@ -79,6 +83,9 @@ THEOREMS = [
     "IrVerif.WriterN.C09_nocb_locks_free",
     "IrVerif.WriterN.C09_nocb_deadlock_free",
     "IrVerif.WriterN.C09_nocb_schedule_bounded",
+    "IrVerif.WriterN.C09_bytes_serial_layout_c07_sharded",
+    "IrVerif.Writer.C09_flat_is_general",
+    "IrVerif.WriterN.C09_memory_bound",
 ]
 ASSUMPTIONS = [
     "CONTROLLED RUNS DO NOT USE THE REAL PRIMITIVES: inside onnx_ir.external_data threading.Lock/Condition and "
@@ -97,12 +104,26 @@ ASSUMPTIONS = [
     "seeded random choice",
     "two models: IrVerif.Writer (flat: single-file parallel writer; shard drivers with serial writers) and the "
     "general IrVerif.WriterN (a tree of pools: also shard drivers that each run a parallel writer, "
-    "workers_per_shard >= 2); every controlled run is compared with the general model, flat runs with both",
+    "workers_per_shard >= 2); every controlled run is compared with the general model, flat runs with both; "
+    "C09_flat_is_general proves the flat model to be the one-pool instance of the general one (toN / absState: lock-step "
+    "bisimulation, WF carries over), so flat callback=None runs are stepNC runs of toN cfg; `writern.flat` checks on "
+    "every flat case that toN of the flat configuration is the general configuration read off the code and that the "
+    "flat run translated by absState is the general run",
     "'exhaustive' scopes are TRANSITION coverage of the model's reachable state graph (every edge executed by the "
     "real writer along some complete schedule), not all interleavings; the quick tier explores only a 5000-state part "
     "of the nested configuration (72 197 states), the thorough tier all of it",
-    "materialised bytes = sizes of the reservations held between budget acquire and release (what the budget "
-    "controls); memory a user callback or a LazyTensor cache keeps is outside; since the fix of D170 the callback "
+    "materialised bytes: the model counts, per thread between budget acquire and release, `peakBytes` = the whole "
+    "tobytes() of an in-memory tensor resp. ONE buffer of the copy loop of ExternalTensor.tofile (`copyReads`), and "
+    "C09_memory_bound proves it <= the reservation `reservationBytes` = _reservation_bytes (min(nbytes, chunk) for an "
+    "ExternalTensor) computed by the model from the arguments (planArgs), hence <= max(budget, 1) + max nbytes; the "
+    "oracle counts per active tofile the tensor's nbytes resp. the largest buffer the REAL ExternalTensor.tofile was "
+    "measured to hand to write(); `_EXTERNAL_TENSOR_COPY_CHUNK_SIZE` is patched to a few bytes in part of the cases "
+    "(`chunk`) and the userspace loop forced by a destination without fileno (`ucopy`); copy_loop_checks compares "
+    "copyReads / reservationBytes with the real loop / the real _reservation_bytes (also for the repo's own 1 MiB "
+    "constant).  NOT counted (observation D331, histogram key observation_D331_two_copy_buffers_live): the previous "
+    "copy buffer is still referenced while the next `src.read` allocates, so an ExternalTensor writer briefly holds "
+    "two buffers for one reservation; numpy / kernel internal buffers; "
+    "memory a user callback or a LazyTensor cache keeps is outside; since the fix of D170 the callback "
     "runs under the tensor lock (lock order: tensor lock -> callback lock(s) -> budget), which both models follow; the "
     "'touch' cases (callback evaluates the tensor) stay in the generators as a regression probe",
     "Layout (pairwise disjoint ranges) and Prealloc (zero start image exactly as long as the last end) are no longer "
@@ -123,7 +144,9 @@ ASSUMPTIONS = [
     "`write` step and are driven by the controlled scheduler too, and so are real ir.Tensor / ExternalTensor objects "
     "through subclasses whose `tofile` is the real one preceded by the harness's yield point (kinds irh / exth: the "
     "real numpy / copy_file_range paths and the ExternalTensor branch of `_reservation_bytes` run under forced "
-    "schedules); plain instances of the two classes stay OS-scheduled / oracle only; capacity < 1 is rejected by "
+    "schedules); PLAIN instances of the two classes (kinds ir / external) are driven too: `ir.Tensor.tofile` / "
+    "`ir.ExternalTensor.tofile` are replaced at class level, in the harness process only, by the real method preceded "
+    "by the same yield point / bookkeeping (real_classes_hooked), in controlled and in OS-scheduled runs; capacity < 1 is rejected by "
     "_validate_write_options before the writer starts, so max(capacity, 1) cannot be reached through the entry point "
     "used here",
     "failures are injected as RuntimeError or as a BaseException that is not an Exception; which of several "
@@ -146,6 +169,58 @@ class _Boom(BaseException):
 
 class _Abort(BaseException):
     """Raised inside controlled threads to unwind them when a run is abandoned."""
+
+
+class _Timeout(BaseException):
+    """Real code called in the main thread of this process did not return within its limit; `args[0]` is the
+    `nontermination:*` signature."""
+
+
+@contextlib.contextmanager
+def alarm_guard(seconds, signature):
+    """SIGALRM guard around real code that runs in the main thread of this (worker) process and could loop on a
+    mutated tree: the serial reference save, the dry runs of `tofile`, `_shard_tensors`.  Raises `_Timeout(signature)`;
+    `_work` / `run` turn it into `fail(signature, ..)`.  Nested guards restore the outer timer."""
+    if _rt.current_thread() is not _rt.main_thread():
+        yield
+        return
+
+    def handler(sig, frm):
+        raise _Timeout(signature)
+
+    old = signal.signal(signal.SIGALRM, handler)
+    t0 = time.time()
+    prev = signal.setitimer(signal.ITIMER_REAL, seconds)
+    try:
+        yield
+    finally:
+        left = max(prev[0] - (time.time() - t0), 0.05) if prev[0] > 0 else 0
+        signal.signal(signal.SIGALRM, old)
+        signal.setitimer(signal.ITIMER_REAL, left)
+
+
+MAX_WRITES = 100000  # writes of one `tofile` call into a harness destination (the generators need < 50)
+EXTERNAL_KINDS = ("external", "exth")  # tensor objects that are instances of ir.ExternalTensor
+REAL_PLAIN_KINDS = ("ir", "external")  # plain instances of ir.Tensor / ir.ExternalTensor (class-level hook)
+
+
+@contextlib.contextmanager
+def chunk_patched(case):
+    """`_core._EXTERNAL_TENSOR_COPY_CHUNK_SIZE` (1 MiB) is set to the case's `chunk` for the duration of one run, so
+    that the ExternalTensor branch of `_reservation_bytes` (`min(length, chunk)`) and the copy loop of
+    `ExternalTensor.tofile` are exercised with the few-byte tensors of the generators."""
+    k = case.get("chunk")
+    if k is None:
+        yield
+        return
+    from onnx_ir import _core
+
+    old = _core._EXTERNAL_TENSOR_COPY_CHUNK_SIZE
+    _core._EXTERNAL_TENSOR_COPY_CHUNK_SIZE = k
+    try:
+        yield
+    finally:
+        _core._EXTERNAL_TENSOR_COPY_CHUNK_SIZE = old
 
 
 # --------------------------------------------------------------------------- controlled scheduler
@@ -600,6 +675,14 @@ class RunState:
         self.budgets = []
         self.progress = 0  # bumped by every callback / tofile entry and exit
         self.cb_objs = {}  # obj -> callbacks currently looking at it (cases with "touch": the callback evaluates)
+        self.real = {}  # id(plain ir.Tensor / ir.ExternalTensor instance) -> (object index, measured peak bytes)
+
+    def dest(self, file, o):
+        """Destination handed to the real `tofile` of an ExternalTensor: with `ucopy` a wrapper without `fileno`, so
+        that the portable userspace copy loop runs instead of `copy_file_range`."""
+        if self.case.get("ucopy") and self.case["objs"][o].get("kind") in EXTERNAL_KINDS:
+            return _NoFileno(file)
+        return file
 
     def problem(self, sig, text):
         with self.meta:
@@ -632,10 +715,88 @@ class FTensor:
         return hooked_tofile(self._st, self.o, self.nbytes, file, lambda f: f.write(self.data))
 
 
+class _NoFileno:
+    """A destination that only has `write`: `ExternalTensor.tofile` takes its userspace copy loop."""
+
+    def __init__(self, f):
+        self._f = f
+        self.sizes = []
+
+    def write(self, d):
+        self.sizes.append(len(d))
+        if len(self.sizes) > MAX_WRITES:  # a copy loop that does not end must not fill the disk
+            raise RuntimeError("nontermination: tofile keeps writing (more than %d writes)" % MAX_WRITES)
+        return self._f.write(d)
+
+
+class _PeakSink:
+    """Dry-run destination: records the sizes of the buffers the real `tofile` hands to `write`."""
+
+    def __init__(self):
+        self.sizes = []
+
+    def write(self, d):
+        self.sizes.append(len(d))
+        if len(self.sizes) > MAX_WRITES:
+            raise _Timeout("nontermination:tofile-dry-run")
+        return len(d)
+
+
+_ORIG_TOFILE = {}
+
+
+def orig_tofile():
+    """The unpatched `ir.Tensor.tofile` / `ir.ExternalTensor.tofile`."""
+    if not _ORIG_TOFILE:
+        import onnx_ir as ir
+
+        _ORIG_TOFILE.update(t=ir.Tensor.tofile, e=ir.ExternalTensor.tofile)
+    return _ORIG_TOFILE
+
+
+def measure_peak(tensor, external):
+    """What the REAL `tofile` of this object materialises at most at one time (independent of the model): a dry run
+    into a sink without `fileno` (userspace path), largest buffer handed to `write`."""
+    sink = _PeakSink()
+    with alarm_guard(30, "nontermination:tofile-dry-run"):
+        orig_tofile()["e" if external else "t"](tensor, sink)
+    return max(sink.sizes, default=0)
+
+
+@contextlib.contextmanager
+def real_classes_hooked(st_ref):
+    """Class-level hook (in this process only): `ir.Tensor.tofile` / `ir.ExternalTensor.tofile` become the real method
+    preceded by `hooked_tofile` (oracle bookkeeping + the controlled scheduler's yield point) for the instances
+    registered in the run state; PLAIN instances of the two classes are thereby driven by the controlled scheduler
+    too, and the OS-scheduled runs get the oracle's bookkeeping for them."""
+    import onnx_ir as ir
+
+    orig = orig_tofile()
+
+    def mk(real):
+        def tofile(self, file):
+            st = st_ref[0]
+            reg = st.real.get(id(self)) if st is not None else None
+            if reg is None:
+                return real(self, file)
+            o, peak = reg
+            return hooked_tofile(st_ref, o, peak, file, lambda f: real(self, st.dest(f, o)))
+
+        return tofile
+
+    ir.Tensor.tofile, ir.ExternalTensor.tofile = mk(orig["t"]), mk(orig["e"])
+    try:
+        yield
+    finally:
+        ir.Tensor.tofile, ir.ExternalTensor.tofile = orig["t"], orig["e"]
+
+
 def hooked_tofile(st_ref, o, nbytes, file, write):
     """The body every tensor object of the harness runs as its `tofile`: bookkeeping for the oracle, the yield point
     of the controlled scheduler ("body", "write"), failure injection, then `write(file)` — the fake tensor's
-    `file.write(data)` or the REAL `ir.Tensor.tofile` / `ir.ExternalTensor.tofile` (kinds "irh" / "exth")."""
+    `file.write(data)` or the REAL `ir.Tensor.tofile` / `ir.ExternalTensor.tofile` (kinds "irh" / "exth" through
+    subclasses, "ir" / "external" through the class-level hook).  `nbytes` is what the oracle accounts as materialised
+    while the call is active: the tensor's nbytes, for an ExternalTensor the MEASURED largest copy buffer."""
     st: RunState = st_ref[0]
     task = getattr(st.tls, "task", None)
     if st.sched is not None and st.case.get("nocb"):
@@ -686,11 +847,13 @@ def real_classes():
 
         class HTensor(ir.Tensor):
             def tofile(self, file):
-                return hooked_tofile(self._h_st, self.o, self.nbytes, file, lambda f: ir.Tensor.tofile(self, f))
+                return hooked_tofile(self._h_st, self.o, self.nbytes, file, lambda f: orig_tofile()["t"](self, f))
 
         class HExternal(ir.ExternalTensor):
             def tofile(self, file):
-                return hooked_tofile(self._h_st, self.o, self.nbytes, file, lambda f: ir.ExternalTensor.tofile(self, f))
+                st = self._h_st[0]
+                return hooked_tofile(self._h_st, self.o, self._h_peak, file,
+                                     lambda f: orig_tofile()["e"](self, st.dest(f, self.o)))
 
         _REAL_CLASSES.update(irh=HTensor, exth=HExternal)
     return _REAL_CLASSES
@@ -764,20 +927,28 @@ def build_tensors(case, st_ref, src_dir=None):
     import onnx_ir as ir
 
     objs = []
+    st = st_ref[0]
+    orig_tofile()
     for o, d in enumerate(case["objs"]):
         kind = d.get("kind", "fake")
         if kind == "notofile":
             objs.append(FTensorNoToFile(st_ref, o, d["size"]))
         elif kind == "ir":
-            objs.append(ir.Tensor(np.frombuffer(obj_bytes(o, d["size"]), dtype=np.uint8).copy(), name=f"t{o}"))
-        elif kind in ("external", "exth") and src_dir is not None:
+            t = ir.Tensor(np.frombuffer(obj_bytes(o, d["size"]), dtype=np.uint8).copy(), name=f"t{o}")
+            if st is not None:
+                st.real[id(t)] = (o, measure_peak(t, False))
+            objs.append(t)
+        elif kind in EXTERNAL_KINDS and src_dir is not None:
             fn = f"src{o}.bin"
             with open(os.path.join(src_dir, fn), "wb") as f:
                 f.write(b"\x07" * 3 + obj_bytes(o, d["size"]))
             cls = ir.ExternalTensor if kind == "external" else real_classes()["exth"]
             t = cls(fn, 3, d["size"], ir.DataType.UINT8, shape=ir.Shape([d["size"]]), name=f"t{o}", base_dir=src_dir)
+            peak = measure_peak(t, True)  # under the case's chunk size (the callers patch it)
             if kind == "exth":
-                t._h_st, t.o = st_ref, o
+                t._h_st, t.o, t._h_peak = st_ref, o, peak
+            elif st is not None:
+                st.real[id(t)] = (o, peak)
             objs.append(t)
         elif kind == "irh":
             t = real_classes()["irh"](np.frombuffer(obj_bytes(o, d["size"]), dtype=np.uint8).copy(), name=f"t{o}")
@@ -790,6 +961,27 @@ def build_tensors(case, st_ref, src_dir=None):
 
 def case_sizes(case):
     return [case["objs"][t["obj"]]["size"] for t in case["tensors"]]
+
+
+def reservations(case):
+    """Budget reservation of every tensor, from the REAL `_reservation_bytes` on real objects of the case's kinds
+    (an `ir.ExternalTensor` for the external kinds — its constructor touches no file —, a non-ExternalTensor object
+    otherwise), under the case's copy chunk size.  This is the `size` of the writer configurations read off the code;
+    the model computes it with `reservationBytes` (`planArgs`, `writern.plan`)."""
+    import onnx_ir as ir
+    from onnx_ir import external_data as ed
+
+    sizes = case_sizes(case)
+    out = []
+    with chunk_patched(case):
+        for i, t in enumerate(case["tensors"]):
+            if case["objs"][t["obj"]].get("kind") in EXTERNAL_KINDS:
+                obj = ir.ExternalTensor("x.bin", 0, sizes[i], ir.DataType.UINT8, shape=ir.Shape([sizes[i]]), name="x",
+                                        base_dir="/nonexistent-c09")
+            else:
+                obj = object()
+            out.append(ed._reservation_bytes(obj, sizes[i]))
+    return out
 
 
 def case_align(case):
@@ -818,7 +1010,8 @@ def shards_of(case):
     st_ref = [None]
     tensors = build_tensors(case, st_ref)
     al, thr = case_align(case)
-    groups = ed._shard_tensors(tensors, case["shard"], al, thr)
+    with alarm_guard(30, "nontermination:shard-tensors"):
+        groups = ed._shard_tensors(tensors, case["shard"], al, thr)
     out, k = [], 0
     for g in groups:
         out.append(list(range(k, k + len(g))))
@@ -843,12 +1036,13 @@ def model_cfg(case):
     """The configuration of the flat Lean model `IrVerif.Writer`; None when the case is not one of the flat
     modes (single-file parallel writer; shard drivers with serial writers)."""
     sizes = case_sizes(case)
+    res = reservations(case)
     n = len(sizes)
     W = case["workers"]
 
     def tensor(i, job, file, off):
         t = case["tensors"][i]
-        return dict(obj=t["obj"], size=sizes[i], fails=t["fails"], cbFails=t["cbFails"], job=job, file=file,
+        return dict(obj=t["obj"], size=res[i], fails=t["fails"], cbFails=t["cbFails"], job=job, file=file,
                     off=off, data=list(obj_bytes(t["obj"], sizes[i])))
 
     if single_file(case) is not None:
@@ -878,12 +1072,13 @@ def general_cfg(case):
     """The configuration of the general (nested) Lean model `IrVerif.WriterN` for a case: a tree of pools.
     None when the save is not concurrent at all."""
     sizes = case_sizes(case)
+    res = reservations(case)
     n = len(sizes)
     W = case["workers"]
 
     def tensor(i, job, file, off):
         t = case["tensors"][i]
-        return dict(obj=t["obj"], size=sizes[i], fails=t["fails"], cbFails=t["cbFails"], job=job, file=file,
+        return dict(obj=t["obj"], size=res[i], fails=t["fails"], cbFails=t["cbFails"], job=job, file=file,
                     off=off, data=list(obj_bytes(t["obj"], sizes[i])))
 
     base = dict(capacity=max(case["cap"], 1), nObjs=max(t["obj"] for t in case["tensors"]) + 1)
@@ -931,11 +1126,17 @@ def plan_request(case):
     start images (`planCfg`, Model/WriterPlan.lean) with C07's layout functions."""
     sizes = case_sizes(case)
     al, athr = case_align(case)
-    return {"m": "writern.plan",
-            "ts": [dict(obj=t["obj"], size=sizes[i], fails=t["fails"], cbFails=t["cbFails"],
-                        data=list(obj_bytes(t["obj"], sizes[i]))) for i, t in enumerate(case["tensors"])],
-            "maxShard": case["shard"] if case["mode"] == "shards" else None, "al": al, "athr": athr,
-            "workers": case["workers"], "capacity": case["cap"]}
+    req = {"m": "writern.plan",
+           # no reservation is sent: Lean computes it (`reservationBytes`) from `external`, the bytes and the chunk
+           # size (its own constant `copyChunkSize` when the case does not patch the repo's)
+           "ts": [dict(obj=t["obj"], external=case["objs"][t["obj"]].get("kind") in EXTERNAL_KINDS, fails=t["fails"],
+                       cbFails=t["cbFails"], data=list(obj_bytes(t["obj"], sizes[i])))
+                  for i, t in enumerate(case["tensors"])],
+           "maxShard": case["shard"] if case["mode"] == "shards" else None, "al": al, "athr": athr,
+           "workers": case["workers"], "capacity": case["cap"]}
+    if case.get("chunk") is not None:
+        req["chunk"] = case["chunk"]
+    return req
 
 
 def check_plan(part, name, case, gcfg, plan):
@@ -1037,7 +1238,8 @@ def serial_reference(case):
     tensors = build_tensors(clean, st_ref)
     d = tempfile.mkdtemp(prefix="c09s-", dir=_TMP_ROOT)
     try:
-        ext = call_writer(clean, tensors, make_callback(st_ref), d, None)
+        with alarm_guard(120, "nontermination:serial-save"):
+            ext = call_writer(clean, tensors, make_callback(st_ref), d, None)
         return {"files": read_files(d), "result": canon_result(ext)}
     finally:
         shutil.rmtree(d, ignore_errors=True)
@@ -1100,7 +1302,7 @@ class Director:
         self.st_ref = [self.st]
         self.dir = tempfile.mkdtemp(prefix="c09c-", dir=_TMP_ROOT)
         self.src = None
-        if any(d.get("kind") == "exth" for d in case["objs"]):
+        if any(d.get("kind") in EXTERNAL_KINDS for d in case["objs"]):
             self.src = tempfile.mkdtemp(prefix="c09c-src-", dir=_TMP_ROOT)
         self.at_return = None
         self.result = None
@@ -1113,7 +1315,7 @@ class Director:
     # ---- the controlled main thread
     def _main_body(self):
         ct = self.sched.cur()
-        tensors = build_tensors(self.case, self.st_ref, self.src)
+        tensors = self.tensors
         try:
             cb = None if self.case.get("nocb") else make_callback(self.st_ref)
             ext = call_writer(self.case, tensors, cb, self.dir, self.case["workers"])
@@ -1294,6 +1496,14 @@ class Director:
     def run(self, chooser):
         """chooser(step_index, obs) -> label or None.  Returns the trace."""
         s = self.sched
+        with chunk_patched(self.case), real_classes_hooked(self.st_ref):
+            # the tensor objects are built (and their `tofile` dry-run measured) here, in the calling thread, where
+            # the SIGALRM guard works
+            self.tensors = build_tensors(self.case, self.st_ref, self.src)
+            return self._run(chooser)
+
+    def _run(self, chooser):
+        s = self.sched
         saved = install_shim(self.ed, s)
         labels, trace, status = [], [], "ok"
         try:
@@ -1443,6 +1653,12 @@ def oracle(case, res, serial, mode_tag, out):
 
 def run_os(case, seed, stall_ticks=OS_STALL_TICKS):
     """Plain run with the real threading / ThreadPoolExecutor; random tiny sleeps in callback and tofile."""
+    st_ref = [None]
+    with chunk_patched(case), real_classes_hooked(st_ref):
+        return _run_os(case, seed, stall_ticks, st_ref)
+
+
+def _run_os(case, seed, stall_ticks, st_ref):
     import random
 
     from onnx_ir import external_data as ed
@@ -1450,7 +1666,7 @@ def run_os(case, seed, stall_ticks=OS_STALL_TICKS):
     rng = random.Random(seed)
     delays = [0.0, 0.0, 0.0002, 0.001]
     st = RunState(case, sched=None, jitter=lambda: delays[rng.randrange(len(delays))])
-    st_ref = [st]
+    st_ref[0] = st
     src = tempfile.mkdtemp(prefix="c09o-src-", dir=_TMP_ROOT)
     tensors = build_tensors(case, st_ref, src)
     budgets = []
@@ -1581,6 +1797,20 @@ def fixed_cases(thorough=False):
               tensors=[T(0, True), T(1), T(2, False, True), T(1)])),
     ]
     nested.append(
+        # PLAIN instances of ir.Tensor / ir.ExternalTensor (class-level hook), copy chunk size patched to 3: the
+        # ExternalTensor of 7 bytes reserves min(7, 3) = 3 <= 4 (a regular reservation; its nbytes would be oversized),
+        # userspace copy loop forced (reads of 3, 3, 1 bytes)
+        ("par-2w-3t-plain-real-chunked",
+         dict(mode="parallel", workers=2, cap=4, shard=None, chunk=3, ucopy=True,
+              objs=[dict(size=3, kind="ir"), dict(size=7, kind="external")],
+              tensors=[T(0), T(1), T(0)])))
+    nested.append(
+        # aligned layout inside shards: the limit (4200) admits a second, aligned tensor (offset 4096) per shard; two
+        # shards x two tensors written by concurrent serial shard drivers
+        ("shards-2w-2x2-aligned",
+         dict(mode="shards", workers=2, cap=4, shard=4200, align=1, athr=1,
+              objs=[dict(size=3), dict(size=2), dict(size=3), dict(size=2)], tensors=[T(0), T(1), T(2), T(3)])))
+    nested.append(
         # aligned layout (alignment=1 -> 4096): holes between the tensors
         ("par-2w-2t-aligned",
          dict(mode="parallel", workers=2, cap=4, shard=None, align=1, athr=1, objs=[dict(size=3), dict(size=2)],
@@ -1641,6 +1871,10 @@ def random_case(rng, big: bool, allow_nested=False, os_only=False):
     if mode == "shards":
         total = sum(case_sizes(case))
         case["shard"] = max(1, rng.choice([total // 2, total // 3, max(s["size"] for s in objs), 2, 4, total + 1]) or 1)
+        if case.get("align") is not None and rng.random() < 0.6:
+            # a limit that admits aligned tensors (offsets are multiples of 4096) inside a shard
+            big = max(s["size"] for s in objs)
+            case["shard"] = rng.choice([4096 + big, 8192 + big, 4096 * n + total])
         if allow_nested and rng.random() < 0.5:
             case["workers"] = rng.randint(6, 9)
         if nfail >= 2:
@@ -1669,7 +1903,7 @@ def random_case(rng, big: bool, allow_nested=False, os_only=False):
         if rng.random() < 0.3:
             for d in objs:
                 if rng.random() < 0.6:
-                    d["kind"] = rng.choice(["notofile", "notofile", "irh", "exth"])
+                    d["kind"] = rng.choice(["notofile", "notofile", "irh", "exth", "ir", "external"])
     if os_only:
         # variations that the controlled scheduler does not drive: the default callback=None path (no callback
         # lock, no `_locked_callback`), tensors without `tofile`, real ir.Tensor / ExternalTensor inputs
@@ -1682,6 +1916,13 @@ def random_case(rng, big: bool, allow_nested=False, os_only=False):
             for o, d in enumerate(objs):
                 if o not in failing_objs and rng.random() < 0.6:
                     d["kind"] = rng.choice(["notofile", "ir", "external"])
+    if any(d.get("kind") in EXTERNAL_KINDS for d in objs):
+        # ExternalTensor inputs: a copy chunk size of a few bytes (the reservation `min(length, chunk)` then differs
+        # from nbytes) and, half of the time, the userspace copy loop instead of `copy_file_range`
+        if rng.random() < 0.7:
+            case["chunk"] = rng.choice([1, 2, 3, 4, 8])
+        if rng.random() < 0.5:
+            case["ucopy"] = True
     return case
 
 
@@ -1727,11 +1968,31 @@ def _compare(part, name, case, gcfg, results, serial, plan=True):
         reqs.append({"m": "writern.run", "cfg": gcfg, "sched": r["labels"], "nc": nocb})
         if fcfg is not None:
             reqs.append({"m": "writer.run", "cfg": fcfg, "sched": [flat_label(l) for l in r["labels"]]})
+    # the flat configuration translated by the model (`toN`, C09_flat_is_general) must be the general configuration
+    # read off the code, and the flat run translated state by state the general run — also for callback=None
+    # cases, whose flat runs are `stepNC` runs of the translated configuration
+    flat_any = model_cfg(case)
+    if flat_any is not None:
+        reqs.append({"m": "writern.flat", "cfg": flat_any,
+                     "sched": [flat_label(l) for l in results[0]["labels"]] if results and not nocb else []})
     if plan:
         reqs.append(plan_request(case))
     outs = lean_batch(reqs) if reqs else []
     if plan:
         check_plan(part, name, case, gcfg, outs[-1])
+    if flat_any is not None:
+        fo = outs[-2] if plan else outs[-1]
+        part.count("flat_is_general_checked")
+        if "err" in fo:
+            part.disagree("driver error (writern.flat): " + str(fo["err"]), {"config": name, "case": case})
+        else:
+            if fo.get("cfg") != gcfg:
+                part.disagree("the flat configuration translated by the model (toN) differs from the general "
+                              "configuration read off the real code", {"config": name, "case": case},
+                              model=fo.get("cfg"), impl=gcfg)
+            if not fo.get("agree") or not fo.get("wf"):
+                part.disagree("flat run translated by absState is not the general model's run (or toN cfg not WF)",
+                              {"config": name, "case": case})
     per = 2 if fcfg is not None else 1
     nested = model_cfg(case) is None
     for idx, r in enumerate(results):
@@ -1749,7 +2010,9 @@ def _compare(part, name, case, gcfg, results, serial, plan=True):
             oversized=sum(1 for s in case_sizes(case) if s > max(case["cap"], 1)),
             shared=len(case["tensors"]) - len({t["obj"] for t in case["tensors"]}),
             callback="none" if nocb else "given", kinds=kinds, failing=min(len(failing), 3),
-            failing_shards=failing_shards,
+            failing_shards=failing_shards, chunk=case.get("chunk", "default"),
+            copy="userspace" if case.get("ucopy") else "kernel-or-none",
+            reservation_lt_nbytes=any(g["size"] < len(g["data"]) for g in gcfg["tensors"]),
         )
         info = {"config": name, "case": case, "labels": r["labels"], "mode": "controlled"}
         if "err" in out or (fout is not None and "err" in fout):
@@ -1811,9 +2074,22 @@ def _mark_hang(item):
             pass
 
 
+ITEM_TIMEOUT = 3600  # last resort per work item; the specific guards inside are much shorter
+
+
 def _work(item):
     part = Part()
     part["extra"] = {}
+    try:
+        with alarm_guard(ITEM_TIMEOUT, "nontermination:work-item-" + item["kind"]):
+            return _work_inner(item, part)
+    except _Timeout as e:
+        part.fail(str(e.args[0]), "real code called in the main thread of a worker did not return within its limit",
+                  {"item": {k: v for k, v in item.items() if k not in ("scheds", "cfg", "marker")}})
+        return dict(part)
+
+
+def _work_inner(item, part):
     kind = item["kind"]
     try:
         if kind == "sched":  # fixed schedules (from writer.cover) on one configuration
@@ -1996,6 +2272,128 @@ def primitive_checks():
     return bad
 
 
+# --------------------------------------------------------------------------- the copy loop of ExternalTensor.tofile
+
+
+class _SrcProbe:
+    """Source file handed to `ExternalTensor.tofile` in the dry runs of `copy_loop_checks` (no `fileno`: the
+    userspace loop runs).  Besides delegating, `read` notes whether the buffer it returned LAST time is still referenced
+    by somebody else (the `chunk` local of the loop) while the next one is being allocated."""
+
+    def __init__(self, f):
+        self._f = f
+        self.last = None
+        self.transient = 0
+
+    def read(self, k=-1):
+        # bytes of length <= 1 are shared singletons in CPython: their reference count says nothing
+        alive = self.last is not None and len(self.last) > 1 and sys.getrefcount(self.last) > 2
+        b = self._f.read(k)
+        self.transient = max(self.transient, len(b) + (len(self.last) if alive else 0))
+        self.last = b
+        return b
+
+    def seek(self, *a):
+        return self._f.seek(*a)
+
+    def __enter__(self):
+        return self
+
+    def __exit__(self, *a):
+        self._f.close()
+        return False
+
+
+def copy_loop_checks(ctx, pairs=None):
+    """`copyReads` / `peakBytes` / `reservationBytes` (Model/WriterPlan.lean) against the real
+    `ExternalTensor.tofile` (userspace loop: a destination without `fileno`) and the real `_reservation_bytes`, for
+    small patched chunk sizes and once for the repo's own 1 MiB constant; oracle: every buffer handed to `write` is at
+    most the reservation, the bytes copied are the tensor's.  Runs in the main thread under a SIGALRM guard."""
+    import builtins
+
+    import onnx_ir as ir
+    from onnx_ir import _core
+    from onnx_ir import external_data as ed
+
+    rng = ctx.rng
+    if pairs is None:
+        pairs = [(c, n) for c in (1, 2, 3) for n in (0, 1, 2, 3, 4, 7)]
+        pairs += [(rng.choice([1, 2, 3, 4, 5, 8, 16]), rng.randrange(0, 40)) for _ in range(24)]
+        pairs.append((None, (1 << 20) + 5))  # the repo's own constant against the model's `copyChunkSize`
+    d = tempfile.mkdtemp(prefix="c09c-copy-", dir=_TMP_ROOT)
+    orig = orig_tofile()["e"]
+    reqs, seen = [], []
+    try:
+        for chunk, n in pairs:
+            data = bytes((k * 7 % 251) + 1 for k in range(n))
+            with open(os.path.join(d, "s.bin"), "wb") as f:
+                f.write(b"\x05" * 3 + data)
+            t = ir.ExternalTensor("s.bin", 3, n, ir.DataType.UINT8, shape=ir.Shape([n]), name="s", base_dir=d)
+            got = bytearray()
+            sizes = []
+
+            class Sink:
+                def write(self, b):
+                    sizes.append(len(b))
+                    if len(sizes) > MAX_WRITES:
+                        raise _Timeout("nontermination:external-tofile-copy-loop")
+                    got.extend(b)
+                    return len(b)
+
+            probes = []
+
+            def probe_open(path, mode="r", *a, **k):
+                probes.append(_SrcProbe(builtins.open(path, mode, *a, **k)))
+                return probes[-1]
+
+            info = {"chunk": chunk, "len": n}
+            with chunk_patched({"chunk": chunk}):
+                _core.open = probe_open
+                try:
+                    with alarm_guard(60, "nontermination:external-tofile-copy-loop"):
+                        orig(t, Sink())
+                except _Timeout as e:
+                    ctx.fail(str(e.args[0]), "ExternalTensor.tofile did not return", info)
+                    return
+                except Exception as e:  # noqa: BLE001
+                    ctx.fail("copy-loop:raised", f"ExternalTensor.tofile raised {type(e).__name__} on an intact source "
+                             "file", info)
+                    continue
+                finally:
+                    del _core.open
+                resv = ed._reservation_bytes(t, n)
+                resv_plain = ed._reservation_bytes(object(), n)
+            ctx.count("copy_loop_cases")
+            if bytes(got) != data:
+                ctx.fail("copy-loop:bytes-differ", "ExternalTensor.tofile (userspace loop) copied other bytes", info)
+            if max(sizes, default=0) > resv:
+                ctx.fail("copy-loop:buffer-exceeds-reservation",
+                         f"a copy buffer of {max(sizes)} bytes exceeds the reservation {resv}", info)
+            if probes and probes[0].transient > max(sizes, default=0):
+                # outside the claim (see the note of ASSUMPTIONS): the previous buffer is still referenced while the
+                # next is read
+                ctx.count("observation_D331_two_copy_buffers_live")
+            req = {"m": "writern.copyreads", "len": n, "external": True}
+            if chunk is not None:
+                req["chunk"] = chunk
+            reqs += [req, dict(req, external=False)]
+            seen.append((info, sizes, resv, resv_plain))
+    finally:
+        shutil.rmtree(d, ignore_errors=True)
+    outs = lean_batch(reqs) if reqs else []
+    for k, (info, sizes, resv, resv_plain) in enumerate(seen):
+        oe, op = outs[2 * k], outs[2 * k + 1]
+        if "err" in oe or "err" in op:
+            ctx.disagree("driver error (writern.copyreads): " + str(oe.get("err") or op.get("err")), info)
+            continue
+        if oe["reads"] != sizes or oe["peak"] != max(sizes, default=0):
+            ctx.disagree("copy loop of ExternalTensor.tofile: buffer sizes differ from the model's copyReads", info,
+                         model=oe["reads"][:20], impl=sizes[:20])
+        if oe["reservation"] != resv or op["reservation"] != resv_plain or op["peak"] != info["len"]:
+            ctx.disagree("_reservation_bytes differs from the model's reservationBytes", info,
+                         model=[oe["reservation"], op["reservation"]], impl=[resv, resv_plain])
+
+
 # --------------------------------------------------------------------------- entry points
 
 
@@ -2014,6 +2412,9 @@ def run(ctx: Ctx) -> None:
         ctx.disagree("assumed semantics of the real threading / concurrent.futures primitives not confirmed: " + msg,
                      {"primitive": msg})
     ctx.count("primitive_semantics_experiments", 6)
+    copy_loop_checks(ctx)
+    if any(str(f.get("signature", "")).startswith("nontermination:") for f in ctx.failures):
+        return  # the worker processes would run into the same loop for every tensor object
 
     ctx.rule = (
         "a case = (configuration, schedule actually executed by the real writer under the controlled scheduler); "
@@ -2034,14 +2435,21 @@ def run(ctx: Ctx) -> None:
                 return 40000  # thorough: the failing variant is explored completely, the others in part
         return max_states
 
-    covers = lean_batch([{"m": "writern.cover", "cfg": general_cfg(c), "maxStates": cap(n), "nc": bool(c.get("nocb"))}
-                         for n, c in fixed])
+    try:
+        with alarm_guard(300, "nontermination:fixed-configurations"):
+            fixed_cfgs = [general_cfg(c) for n, c in fixed]
+    except _Timeout as e:
+        ctx.fail(str(e.args[0]), "real code called while the fixed configurations are read off the code "
+                 "(_shard_tensors / _align_offset / _reservation_bytes) did not return", {"stage": "fixed"})
+        return
+    covers = lean_batch([{"m": "writern.cover", "cfg": g, "maxStates": cap(n), "nc": bool(c.get("nocb"))}
+                         for (n, c), g in zip(fixed, fixed_cfgs)])
     plans = lean_batch([plan_request(c) for n, c in fixed])
     reach_2w3t = 0
     for (name, case), cov, plan in zip(fixed, covers, plans):
         if "err" in cov:
             raise Infra("writern.cover: " + cov["err"])
-        cfg = general_cfg(case)
+        cfg = fixed_cfgs[[n for n, _c in fixed].index(name)]
         check_plan(ctx, name, case, cfg, plan)
         if not cov.get("wf", False):
             ctx.disagree("fixed configuration is not well-formed for the model (wfb / layoutb / preallocb / ncb)",
@@ -2157,6 +2565,21 @@ def replay(ctx: Ctx, obj: dict) -> None:
     from harness.common import Infra
 
     logging.getLogger("onnx_ir.external_data").setLevel(logging.ERROR)
+    c = obj.get("case", obj)
+    if isinstance(c, dict) and "len" in c and "mode" not in c:  # a case of copy_loop_checks
+        copy_loop_checks(ctx, [(c.get("chunk"), c["len"])])
+        return
+    if isinstance(c, dict) and isinstance(c.get("item"), dict):  # a work item that ran into its time limit
+        it = c["item"]
+        if it.get("kind") in ("walk", "os") and "seed" in it:
+            part = _isolated(dict(it, marker=None))
+            if part.get("extra", {}).get("crash"):
+                raise Infra("replay crashed: " + part["extra"]["crash"])
+            ctx.merge(part)
+            return
+        obj = {"case": it.get("case") or (it.get("obj") or {}).get("case")}
+        if obj["case"] is None:
+            return
     part = _isolated(dict(kind="replay", obj=obj))
     crash = part.get("extra", {}).get("crash")
     if crash:
